@@ -48,6 +48,11 @@ impl Gen {
             b"local".to_vec(),
             b"_tcp".to_vec(),
             b"_srv".to_vec(),
+            // the same labels in another letter case: names are compared byte-wise on the wire
+            b"Example".to_vec(),
+            b"COM".to_vec(),
+            b"A".to_vec(),
+            b"Local".to_vec(),
         ];
         Gen { rng: Rng::new(seed), pool, share: 6 }
     }
